@@ -204,7 +204,7 @@ def countRefs (cs : List Cand) : List Ref := cs.foldl (fun refs c => bumpRef c r
 def keepRefs : List Ref → WSt → List Ref → WSt × List Ref
   | [], st, one => (st, one)
   | r :: rs, st, one =>
-    if r.count > 1 && r.str.length > 3 then keepRefs rs (strtblAdd st r.str r.alias).1 one
+    if r.count > 1 && r.str.length > 3 then keepRefs rs (strtblAdd st r.str none).1 one
     else keepRefs rs st (one ++ [r])
 
 def checkReferences (cs : List Cand) (st : WSt) : WSt × List Ref := keepRefs (countRefs cs) st []
